@@ -160,7 +160,7 @@ def encoder_cases(chk, rng, n, st, enc, enc_t):
     Batch = namedtuple("Batch", ["observation", "action", "reward", "next_observation", "terminated", "truncated"])
     bins = st.the_bins
     for i in range(n):
-        N, H = int(rng.choice([2, 4])), int(rng.choice([1, 2, 3]))
+        N, H = int(rng.choice([2, 4])), int([1, 2, 3, 4, 5][i % 5])     # horizons >= 3: a window can go on after a termination
         obs, act, nobs = dy(rng, (N, H, 3)), dy(rng, (N, H, 1)), dy(rng, (N, H, 3))
         rew = dy(rng, (N, H))
         term = np.stack([term_pattern(rng, H, 2) for _ in range(N)]) if i % 4 else np.zeros((N, H), dtype=np.float32)
